@@ -1,9 +1,253 @@
 package main
 
 import (
+	"fmt"
+	"strconv"
+	"strings"
+	"time"
+
+	"github.com/zeromicro/go-zero/core/breaker"
 	"github.com/zeromicro/go-zero/verifshim/vlib"
+	"github.com/zeromicro/go-zero/verifshim/vsched"
+	"github.com/zeromicro/go-zero/verifshim/vx"
 )
 
+// ---- schedule engine --------------------------------------------------------------------------
+//
+// A scenario: a breaker pre-loaded by a deterministic sequential prefix, then 2-3 threads doing one
+// call each, all interleavings within the preemption bound; the coin is an explorer choice.
+// Shared observations go through the execution log:
+//   W0 s f d        window totals after the prefix            (main)
+//   B i             thread i is about to call
+//   R i             request of thread i runs
+//   H tid c         coin consulted by thread tid, answer c (0 pass, 1 drop)
+//   E i verdict class|msg   call of thread i returned (black-box verdict of judge())
+//   W1 s f d        window totals at quiescence                (main)
+
+type thrSpec struct {
+	E     Entry
+	Out   int
+	Sleep time.Duration // virtual sleep before the call (bucket-boundary variant)
+}
+
+func preload(b breaker.Breaker, pre string) {
+	call := func(out int) { doCall(b, "", Entry{Base: bDo}, out, virtCtx, nil) }
+	switch pre {
+	case "closed":
+		for i := 0; i < 3; i++ {
+			call(oOK)
+		}
+	case "threshold": // exactly 5 failures: the next non-accepted record arms the law
+		for i := 0; i < 5; i++ {
+			call(oBad)
+		}
+	case "throttling": // 9 failures, nothing accepted
+		for i := 0; i < 9; i++ {
+			call(oBad)
+		}
+	case "recovering": // throttling with accepted records in the window
+		for i := 0; i < 12; i++ {
+			call(oBad)
+		}
+		for i := 0; i < 4; i++ {
+			call(oOK)
+		}
+	}
+}
+
+func schedScenario(name, pre string, stale bool, thr []thrSpec, p, t int) vx.Scenario {
+	body := func() {
+		hook.pre = true
+		b := breaker.NewBreaker(breaker.WithName("sched"))
+		preload(b, pre)
+		if stale {
+			vsched.TimeSleep(time.Second + 1) // the last throttled admission is now > 1 s old
+		}
+		hook.pre = false
+		_, s0, f0, d0 := breaker.VerifTotals(b)
+		vsched.Log("W0 %d %d %d", s0, f0, d0)
+		var wg vsched.WaitGroup
+		for i, ts := range thr {
+			i, ts := i, ts
+			wg.Add(1)
+			vsched.GoNamed(fmt.Sprintf("c%d", i), false, func() {
+				defer wg.Done()
+				if ts.Sleep > 0 {
+					vsched.TimeSleep(ts.Sleep)
+				}
+				vsched.Log("B %d", i)
+				o := doCall(b, "", ts.E, ts.Out, virtCtx, func() {
+					vsched.Log("R %d", i)
+					vsched.Op("in-req")
+				})
+				verdict, class, msg := judge(ts.E, ts.Out, o)
+				vsched.Log("E %d %s %s|%s", i, verdict, class, msg)
+			})
+		}
+		wg.Wait()
+		_, s1, f1, d1 := breaker.VerifTotals(b)
+		vsched.Log("W1 %d %d %d", s1, f1, d1)
+	}
+	check := func(e *vsched.Exec) vx.Verdict {
+		switch e.Outcome {
+		case "ok":
+		case "deadlock":
+			return vx.Verdict{Class: "deadlock{" + e.BlockedKey() + "}", Msg: "deadlock: " + strings.Join(e.Blocked(), " "), Sig: "deadlock"}
+		case "crash":
+			return vx.Verdict{Class: "crash", Msg: "uncaught panic: " + strings.Join(e.Panics(), "; "), Sig: "crash"}
+		default:
+			return vx.Verdict{Class: e.Outcome, Msg: e.Outcome + ": " + strings.Join(e.Blocked(), " "), Sig: e.Outcome}
+		}
+		n := len(thr)
+		bpos, epos := make([]int, n), make([]int, n)
+		verdicts := make([]string, n)
+		coins := make([]string, n)
+		var w0, w1 [3]int64
+		seenW := 0
+		for pos, l := range e.Log() {
+			f := strings.SplitN(l, " ", 4)
+			switch f[0] {
+			case "W0", "W1":
+				var w [3]int64
+				fmt.Sscanf(l[3:], "%d %d %d", &w[0], &w[1], &w[2])
+				if f[0] == "W0" {
+					w0 = w
+				} else {
+					w1 = w
+				}
+				seenW++
+			case "B":
+				i, _ := strconv.Atoi(f[1])
+				bpos[i] = pos
+			case "H":
+				// thread ids: main = 0, callers 1..n in spawn order
+				tid, _ := strconv.Atoi(f[1])
+				if tid >= 1 && tid <= n {
+					coins[tid-1] += f[2]
+				}
+			case "E":
+				i, _ := strconv.Atoi(f[1])
+				epos[i] = pos
+				verdicts[i] = f[2]
+				rest := ""
+				if len(f) > 3 {
+					rest = f[3]
+				}
+				cm := strings.SplitN(rest, "|", 2)
+				if cm[0] != "" {
+					return vx.Verdict{Class: cm[0], Msg: fmt.Sprintf("thread %d: %s", i, cm[1])}
+				}
+			}
+		}
+		if seenW != 2 {
+			return vx.Verdict{Class: "harness-log", Msg: "window totals missing from the log"}
+		}
+		// exact accounting at quiescence
+		var ws, wf, wd int64
+		for i, ts := range thr {
+			switch verdicts[i] {
+			case vAdmitted:
+				if wantKind(ts.E, ts.Out) == KS {
+					ws++
+				} else {
+					wf++
+				}
+			case vRejected:
+				wd++
+			}
+		}
+		gs, gf, gd := w1[0]-w0[0], w1[1]-w0[1], w1[2]-w0[2]
+		if gs != ws || gf != wf || gd != wd {
+			cls := "concurrent-miscount"
+			switch {
+			case gs+gf+gd < ws+wf+wd:
+				cls = "concurrent-lost-record"
+			case gs+gf+gd > ws+wf+wd:
+				cls = "concurrent-double-record"
+			}
+			return vx.Verdict{Class: cls, Msg: fmt.Sprintf("verdicts %v: window gained S%+d F%+d D%+d, want S%+d F%+d D%+d", verdicts, gs, gf, gd, ws, wf, wd)}
+		}
+		// rejections: the law must hold for the records completed before the call began plus
+		// (at most) every concurrent non-accepted one
+		for i := range thr {
+			if verdicts[i] != vRejected {
+				continue
+			}
+			acc, non := w0[0], w0[1]+w0[2]
+			admittedNearby := false
+			for j, tj := range thr {
+				if j == i || verdicts[j] == vDone || bpos[j] > epos[i] {
+					continue
+				}
+				accepted := verdicts[j] == vAdmitted && wantKind(tj.E, tj.Out) == KS
+				if verdicts[j] == vAdmitted {
+					admittedNearby = true
+				}
+				if epos[j] < bpos[i] { // completed before: counts whatever it is
+					if accepted {
+						acc++
+					} else {
+						non++
+					}
+				} else if !accepted { // concurrent: most favourable choice
+					non++
+				}
+			}
+			if !law(acc, non) {
+				return vx.Verdict{Class: "rejected-below-threshold", Msg: fmt.Sprintf("thread %d rejected; even counting every concurrent non-accepted call the window holds %d non-accepted vs %d accepted (verdicts %v)", i, non, acc, verdicts)}
+			}
+			if stale && !admittedNearby {
+				return vx.Verdict{Class: "forced-probe-rejected", Msg: fmt.Sprintf("thread %d rejected although the previous throttled admission is > 1 s old and no other call was admitted before it returned (verdicts %v)", i, verdicts)}
+			}
+		}
+		sig := make([]string, n)
+		for i := range thr {
+			sig[i] = verdicts[i][:3]
+			if coins[i] != "" {
+				sig[i] += "/c" + coins[i]
+			}
+		}
+		return vx.Verdict{Sig: strings.Join(sig, ",")}
+	}
+	return vx.Scenario{Name: name, Body: body, Check: check, P: p, T: t, SetBound: true}
+}
+
 func runSchedules(cfg *vlib.Config, r *vlib.Report) {
-	r.Finish()
+	P := 2
+	if cfg.Thorough() {
+		P = 3
+	}
+	en := func(base, cx int) Entry { return Entry{Base: base, Ctx: cx} }
+	var sc []vx.Scenario
+	add := func(name, pre string, stale bool, p, t int, thr ...thrSpec) {
+		sc = append(sc, schedScenario(name, pre, stale, thr, p, t))
+	}
+	add("closed-3", "closed", false, P, 0,
+		thrSpec{E: en(bDo, cxNone), Out: oOK}, thrSpec{E: en(bDoAcc, cxLive), Out: oAccErr}, thrSpec{E: en(bAllow, cxNone), Out: oBad})
+	add("threshold-3", "threshold", false, P, 0,
+		thrSpec{E: en(bDo, cxNone), Out: oBad}, thrSpec{E: en(bDoFb, cxNone), Out: oPanic}, thrSpec{E: en(bAllow, cxLive), Out: oBad})
+	add("threshold-2-mixed", "threshold", false, P+1, 0,
+		thrSpec{E: en(bDoFbAcc, cxNone), Out: oBad}, thrSpec{E: en(bDoAcc, cxNone), Out: oAccErr})
+	add("throttling-3", "throttling", false, P-1, 0,
+		thrSpec{E: en(bDoFbAcc, cxNone), Out: oOK}, thrSpec{E: en(bDo, cxLive), Out: oBad}, thrSpec{E: en(bAllow, cxNone), Out: oOK})
+	add("throttling-2-done", "throttling", false, P+1, 0,
+		thrSpec{E: en(bDoFb, cxCanceled), Out: oOK}, thrSpec{E: en(bDoFb, cxNone), Out: oOK})
+	add("stale-2", "throttling", true, P+1, 0,
+		thrSpec{E: en(bDo, cxNone), Out: oBad}, thrSpec{E: en(bDoFb, cxNone), Out: oOK})
+	add("recovering-2", "recovering", false, P+1, 0,
+		thrSpec{E: en(bDoAcc, cxNone), Out: oAccErr}, thrSpec{E: en(bAllow, cxNone), Out: oBad})
+	add("threshold-boundary-2", "threshold", false, P, 1,
+		thrSpec{E: en(bDo, cxNone), Out: oBad}, thrSpec{E: en(bDoFb, cxNone), Out: oBad, Sleep: 250 * time.Millisecond})
+	if cfg.Thorough() {
+		add("stale-3", "throttling", true, P, 0,
+			thrSpec{E: en(bDo, cxNone), Out: oBad}, thrSpec{E: en(bDoFb, cxNone), Out: oOK}, thrSpec{E: en(bAllow, cxNone), Out: oBad})
+		add("recovering-3", "recovering", false, P, 0,
+			thrSpec{E: en(bDoAcc, cxNone), Out: oAccErr}, thrSpec{E: en(bAllow, cxNone), Out: oBad}, thrSpec{E: en(bDoFbAcc, cxLive), Out: oPanic})
+		add("threshold-boundary-3", "threshold", false, P, 1,
+			thrSpec{E: en(bDo, cxNone), Out: oBad}, thrSpec{E: en(bDoFb, cxNone), Out: oBad, Sleep: 250 * time.Millisecond}, thrSpec{E: en(bAllow, cxNone), Out: oBad})
+	}
+	rule := "(A) history engine: explicit-state BFS over histories of calls (S/F through rotating entry points, bursts Sx10/Fx6/Fx60, coin answer drop/pass) and time jumps (1 ns .. 25 s incl. bucket/window boundaries +-1 ns) on the real breaker under a fake clock; a state is distinct by its canonical white-box dump (buckets by age, phase, lastPass age) + reference records, non-trivial when the window holds at least one record; in EVERY state every entry point x outcome x coin answer is probed one step ahead. " +
+		"(B) schedule engine: every interleaving within the preemption bound of 2-3 concurrent calls on a pre-loaded breaker, distinct by (scenario, verdict vector + coin answers). " +
+		"(C) wrappers: every status code 200-599 / gRPC code / listed error through the rest, zrpc, redis and sqlx wrappers, distinct by (wrapper, input)."
+	vx.Main(cfg, r, sc, vx.Bounds{P: 2, T: 0}, vx.Bounds{P: 3, T: 0}, rule)
 }
